@@ -173,19 +173,26 @@ func (h265dp *h265Depacketizer) depacketizeFu(packet *Packet) (err error) {
 	return
 }
 
+// metaStuck reports that the parameter sets stored so far have not made the
+// metadata ready (e.g. a damaged in-band SPS that does not parse); a newer
+// parameter set then replaces the stored one instead of being ignored.
+func (h265dp *h265Depacketizer) metaStuck() bool {
+	return !h265dp.metaReady && !hevc.MetadataIsReady(h265dp.meta)
+}
+
 func (h265dp *h265Depacketizer) writeFrame(rtpTimestamp uint32, frame *codec.Frame) error {
 	nalType := (frame.Payload[0] >> 1) & 0x3f
 	switch nalType {
 	case hevc.NalVps:
-		if len(h265dp.meta.Vps) == 0 {
+		if len(h265dp.meta.Vps) == 0 || h265dp.metaStuck() {
 			h265dp.meta.Vps = frame.Payload
 		}
 	case hevc.NalSps:
-		if len(h265dp.meta.Sps) == 0 {
+		if len(h265dp.meta.Sps) == 0 || h265dp.metaStuck() {
 			h265dp.meta.Sps = frame.Payload
 		}
 	case hevc.NalPps:
-		if len(h265dp.meta.Pps) == 0 {
+		if len(h265dp.meta.Pps) == 0 || h265dp.metaStuck() {
 			h265dp.meta.Pps = frame.Payload
 		}
 	}
